@@ -1,5 +1,6 @@
 import P2PVerif.Lemmas.SrcMbapp
 import P2PVerif.Lemmas.SrcHdr
+import P2PVerif.Lemmas.SrcHdrSet
 import P2PVerif.Model.Reasm
 import P2PVerif.Lemmas.Reasm
 /-! # C10 — reassembly never invents or mixes messages
@@ -147,5 +148,15 @@ theorem src_mbapp_header_is_decode (pkt : Go.Bytes) (hl : 24 ≤ pkt.length) :
       mbapp.Header.GetPartIndex (pkt.take 24) = .ok (UInt16.ofNat hdr.partIndex) ∧
       mbapp.Header.GetPartCount (pkt.take 24) = .ok (UInt16.ofNat hdr.partCount) :=
   SrcHdr.getters_are_decode pkt hl
+
+/-- ⊢ (source) the sender's `SetPartIndex`/`SetPartCount` and the receiver's `GetPartIndex`/`GetPartCount` agree on
+    every 24-byte header and every pair of 16-bit values, and writing them disturbs no other field: the part
+    coordinates a fragment is filed under are the ones it was sent with. -/
+theorem src_mbapp_part_fields_roundtrip (h : Go.Bytes) (idx cnt : UInt16) (hl : h.length = 24) :
+    ∃ h1 h2, mbapp.Header.SetPartIndex h idx = .ok h1 ∧ mbapp.Header.SetPartCount h1 cnt = .ok h2 ∧
+      h2.length = 24 ∧
+      mbapp.Header.GetPartIndex h2 = .ok idx ∧ mbapp.Header.GetPartCount h2 = .ok cnt ∧
+      (∀ m, m < 4 ∨ m = 5 → SrcHdr.word h2 m = SrcHdr.word h m) :=
+  SrcHdr.part_fields_roundtrip h idx cnt hl
 
 end P2PVerif.C10
